@@ -505,13 +505,16 @@ class LazyStackedTensorDict(TensorDictBase):
         else:
             names_c = list(value)
             name = names_c[self.stack_dim]
-            self._td_dim_name = name
             del names_c[self.stack_dim]
+            # check first, rename the members, name the stack dim last: a refused assignment
+            # must not leave the stack dim renamed (under lock, the setters of the members are
+            # what tells the tensordicts that hold this stack that their memoised reads are stale)
             for td in self.tensordicts:
                 if td._check_dim_name(name):
-                    # TODO: should reset names here
                     raise ValueError(f"The dimension name {name} is already taken.")
+            for td in self.tensordicts:
                 td.rename_(*names_c)
+            self._td_dim_name = name
 
     def _rename_subtds(self, names):
         # remove the name of the stack dim
